@@ -37,6 +37,18 @@ CLAIMED = {
   note="Lean kernel; hand model of at.rs and slyce 0.3.1 tied by correspondence only; CPython's slicing is the direct oracle; "
        "`as isize` assumed to be the identity (64-bit target).",
   technique="Lean 4 proof over a hand model of at.rs/slyce + differential correspondence against CPython slicing", ref="DESIGN.md §6 C09"),
+ "C10": dict(
+  text="Lean 4 theorems over a hand model of Type::matches / == / concat / conjoin (arms in source order, unions as sets, "
+       "structs as maps), for all (well-formed) types, by induction on type size: reflexivity of == and of matches, ! least, "
+       "any greatest, the variance equation of every constructor (arrays, tuples, struct width+depth, function parameters "
+       "contravariant / results covariant, arity), invariance of mut, a union is an upper bound of its members and lies below "
+       "exactly what all members lie below. Transitivity, join/meet laws and soundness for values are NOT yet proved: they are "
+       "evaluated as laws on the real Type API for generated pairs and triples (tested). The model is tied to the code by a "
+       "differential stream over eq/matches/concat/conjoin and all 20 type queries, evaluated on the member order the "
+       "implementation actually had.",
+  note="Lean kernel; the Ty model is hand-written (tied by correspondence only, ~18k queries per quick run); types outside wf "
+       "(built through public constructors that bypass normalisation) are out of scope; nested unions answer `none` in the model's queries.",
+  technique="Lean 4 proof over a hand model of the type algebra + differential correspondence + law oracle", ref="DESIGN.md §6 C10"),
 }
 NOT_YET = "machinery for this property is not built yet in this round (planned, see DESIGN.md §6)"
 
